@@ -14,6 +14,7 @@ import (
 	"os"
 	"path/filepath"
 	"sort"
+	"strings"
 	"time"
 
 	"go.miragespace.co/specter/internal/verifkit"
@@ -31,6 +32,7 @@ type Op struct {
 	C  string   `json:"c"`
 	Cs []string `json:"cs"` // import: children
 	Ks []int    `json:"ks"` // import / removekeys: key indexes
+	N  int      `json:"n"`  // importfill / removefill: that many filler keys ("z/0001" ...) in one call
 }
 
 type History struct {
@@ -121,12 +123,43 @@ func project(kv *sqlite3.SqliteKV, keys []string) map[string]any {
 		ranged = append(ranged, string(k))
 	}
 	sort.Strings(ranged)
-	res := map[string]any{"simple": simple, "kids": kids, "lease": lease, "listed": listed, "ranged": ranged}
+	// filler keys of the bulk operations are reported as counts
+	fillRanged, fillListed := 0, 0
+	keep := ranged[:0]
+	for _, k := range ranged {
+		if strings.HasPrefix(k, "z/") {
+			fillRanged++
+		} else {
+			keep = append(keep, k)
+		}
+	}
+	ranged = keep
+	keepL := listed[:0]
+	for _, k := range listed {
+		if strings.HasPrefix(k[0], "z/") {
+			fillListed++
+		} else {
+			keepL = append(keepL, k)
+		}
+	}
+	listed = keepL
+	fillRead := 0
+	if fillRanged > 0 || fillListed > 0 {
+		for i := 1; i <= 4000; i++ {
+			if v, _ := kv.Get(ctx, fillKey(i)); len(v) > 0 {
+				fillRead++
+			}
+		}
+	}
+	res := map[string]any{"simple": simple, "kids": kids, "lease": lease, "listed": listed, "ranged": ranged,
+		"fill": fillRanged, "fill_listed": fillListed, "fill_read": fillRead}
 	if len(errs) > 0 {
 		res["err"] = fmt.Sprint(errs)
 	}
 	return res
 }
+
+func fillKey(i int) []byte { return []byte(fmt.Sprintf("z/%04d", i)) }
 
 func main() {
 	initSqlite()
@@ -176,6 +209,20 @@ func main() {
 				err = kv.Import(ctx, keys(op.Ks), vals)
 			case "removekeys":
 				err = kv.RemoveKeys(ctx, keys(op.Ks))
+			case "importfill":
+				var ks [][]byte
+				var vals []*protocol.KVTransfer
+				for i := 1; i <= op.N; i++ {
+					ks = append(ks, fillKey(i))
+					vals = append(vals, &protocol.KVTransfer{SimpleValue: []byte("f")})
+				}
+				err = kv.Import(ctx, ks, vals)
+			case "removefill":
+				var ks [][]byte
+				for i := 1; i <= op.N; i++ {
+					ks = append(ks, fillKey(i))
+				}
+				err = kv.RemoveKeys(ctx, ks)
 			case "acquire":
 				var tok uint64
 				tok, err = kv.Acquire(ctx, key(op.K), time.Hour)
